@@ -63,6 +63,23 @@ AppendOK(id, ep, sz, f) ==
   /\ acked' = acked \cup {id}
   /\ UNCHANGED <<up, inflight, removed>> /\ lastPurge' = NoPurge
 
+\* ---- total form of Append for trace binding: the bytes landed in file f, whatever the rule above says.  f = an existing closed file is the
+\*      named deviation "append to an old file after restart": the file becomes the active one again.  The model keeps the record in ents
+\*      (it was acknowledged, so the property demands it back); if the file ends in a torn record the real reader stops before it, and the
+\*      durability clause fails on the observed All() -- which is exactly why the rule forbids appending to an old file.
+AppendTargetOK(f) == IF NeedRotate THEN f \notin Files ELSE f = active
+AppendAny(id, ep, sz, f) ==
+  /\ up /\ id \notin DOMAIN epoch
+  /\ disk' = IF f \notin Files THEN disk @@ (f :> [ents |-> <<id>>, torn |-> 0])
+             ELSE [disk EXCEPT ![f].ents = Append(@, id)]
+  /\ logFiles' = IF f = active THEN logFiles
+                 ELSE SelectSeq(FlushLogFiles, LAMBDA s : s.f # f)
+  /\ active' = f
+  /\ activeMax' = IF f = active THEN Max(activeMax, ep) ELSE ep
+  /\ epoch' = epoch @@ (id :> ep) /\ size' = size @@ (id :> sz)
+  /\ acked' = acked \cup {id}
+  /\ UNCHANGED <<up, inflight, removed>> /\ lastPurge' = NoPurge
+
 \* ---- Rotate() and Close() both call flush()
 Flush ==
   /\ up
